@@ -191,6 +191,33 @@ theorem filter_listing_order_irrelevant (get : String → Option Node) (l l' : L
     · rw [fin l l' hnd hp]
     · rw [fin _ _ ((hnd.sublist ((List.filter_sublist).map _))) (hp.filter _)]
 
+/-- **filter_allpods_equiv.**  The code lists pod by pod (`GetAllPods`, then each pod's nodes) when no
+    pod is named; with distinct pods that cover every node's pod this selects exactly what the model's
+    direct listing selects. -/
+theorem filter_allpods_equiv (pods : List String) (st : List Node) (nf : NodeFilter) (hst : StoreOK st)
+    (hnd : pods.Nodup) (hcover : ∀ n ∈ st, n.pod ∈ pods) :
+    filterNodesIter pods st nf = filterNodes st nf := by
+  unfold filterNodesIter filterNodes
+  symm
+  apply filter_listing_order_irrelevant
+  · exact hst.sublist ((List.filter_sublist).map _)
+  · unfold getNodesByPod getNodesByPodIter
+    by_cases hp : nf.podname = ""
+    · simp only [hp, beq_self_eq_true, if_true]
+      have h1 := flatMap_pods_perm (fun n => labelsFilter n.labels nf.labels && (nf.all || !n.isDown)) st pods hnd
+      refine List.Perm.trans (List.Perm.of_eq ?_) h1.symm
+      · apply List.filter_congr
+        intro n hn
+        have hm : n.pod ∈ pods := hcover n hn
+        simp [listable, hp, hm, Bool.and_assoc]
+      
+    · have : (nf.podname == "") = false := by simpa using hp
+      simp only [this, Bool.false_eq_true, if_false, podNodes]
+      apply List.Perm.of_eq
+      apply List.filter_congr
+      intro n _
+      simp [listable, this, Bool.and_assoc]
+
 /-! The hypotheses are satisfiable and the statement is not vacuous: a store with two pods, a down
     node and a bypassed node; includes with a repeat and out of order; a pod listing with excludes. -/
 def exStore : List Node :=
@@ -202,5 +229,8 @@ example : (filterNodes exStore ⟨"", ["n2", "n1", "n2"], [], [], false⟩).map'
 example : (filterNodes exStore ⟨"pa", [], ["n5"], [("z", "1")], false⟩).map' (·.map (·.name)) = .ok ["n1"] := by decide
 example : (filterNodes exStore ⟨"pa", [], [], [], true⟩).map' (·.map (·.name)) = .ok ["n1", "n3", "n4", "n5"] := by decide
 example : filterNodes exStore ⟨"", ["n1", "nope"], [], [], false⟩ = .err errNotFound := by decide
+
+example : filterNodesIter ["pb", "pa"] exStore ⟨"", [], ["n5"], [("z", "1")], false⟩ =
+    filterNodes exStore ⟨"", [], ["n5"], [("z", "1")], false⟩ := by decide
 
 end Eru.Props.C21
